@@ -31,6 +31,9 @@ CLAIMED = {
             "half-finished failing calls are symbolic: the last operation equals the same operation on a fresh pool for ALL points. Known finding D3."),
     "C10": ("6/C10", "After every history of the bounded alphabet each operand still equals, prints, hashes and (for ALL points) evaluates like its fresh twin; "
             "list helpers against their specification for an arbitrary integer index; Point against later dict mutation."),
+    "C11": ("6/C11", "Shapes enumerated (bounded), constants/parameters symbolic (each rule's value tests are solver-checked forks): along every path the step-by-step "
+            "reduction revisits no form, stays within 2*size^2+10 steps, ends in a form a fresh copy of which is not rewritten further, and the library's "
+            "driver gives no give-up warning for <= 20 nodes. No unbounded termination claim."),
     "C12": ("6/C12", "a == b <=> structural specification for ALL parameter values (n, base, constants, coordinates symbolic; classes/arity/order enumerated), "
             "symmetry/reflexivity/transitivity on the same path, equal => equal hash with hash() as an uninterpreted function (congruence), foreign "
             "comparands never raise; real sets/dicts in the concrete replay."),
@@ -44,6 +47,9 @@ CLAIMED = {
             "constructor twins (==, class, printed form) over all pairs of operand kinds incl. a symbolic constant; foreign operands rejected."),
     "C16": ("6/C16", "n over ALL integers/reals and base over ALL reals (symbolic): accepted <=> documented range, stored == given (n as int); names by the "
             "regular-language lemma; every constructor position rejects the enumerated foreign objects."),
+    "C18": ("6/C18", "Iteration order of every variable-name set and every set()/frozenset() inside smoothmath is chosen by the solver (all k! orders are paths) and the "
+            "coordinate order is permuted: canonical vs chosen order must give identical kinds / identical expressions / identical z3 terms (= identical "
+            "float operation sequences); differences are replayed in fresh processes under 16 PYTHONHASHSEED values."),
     "C17": ("6/C17", "On every solver-feasible path of evaluation / derivative routes / as_expression the outcome is a real number, DomainError or "
             "CoordinateMissing; proxies reproduce Python's ZeroDivisionError/ValueError/complex/TypeError/KeyError behaviour."),
 }
